@@ -87,10 +87,30 @@ def main():
             diffs += 1
             if diffs <= 5:
                 R.extra.setdefault('correspondence_diffs', []).append({'case': line, 'a': a.decode('utf-8', 'replace'), 'b': b.decode('utf-8', 'replace'), 'impl': io[:200], 'model': mo[:200]})
+    # the provided cross-type == impls (X, XBuf, XRef, XRefBuf against each other): same answer as the same-type ==
+    xl = []; xm = []
+    for (kind, a, b) in cases:
+        if kind in ('uri', 'iri'):
+            xl.append('xcmp\t%s\t%s\t%s' % (kind, hexs(a), hexs(b))); xm.append((kind, a, b))
+    for (fam, a, b), line, io in zip(xm, xl, run_lines(harness, xl)):
+        if io.startswith('ERR'):
+            continue
+        f = io.split('\t'); pr = []
+        want = '1' if spec.canon(a) == spec.canon(b) else '0'
+        if len(f) < 3 or len(f[0]) != 2 or 'P' in f[0] + f[1]:
+            pr.append('a cross-type == panicked or returned nothing: %s' % io[:120])
+        elif any(ch != want for ch in f[0][0] + f[1]):
+            pr.append('cross-type == results %s / %s, the documented equivalence says %s for every impl' % (f[0][0], f[1], want))
+        if pr:
+            nviol += 1
+            if nviol <= 300:
+                R.violation({'kind': 'equality is not the documented normalising equivalence', 'type': fam + ' (cross-type impls X/XBuf/XRef/XRefBuf)', 'a': a.decode('utf-8', 'replace'), 'b': b.decode('utf-8', 'replace'),
+                             'problems': pr, 'implementation': io[:200], 'replay': "printf '%s\\n' | %s" % (line.replace('\t', '\\t'), harness)}, no_input=False)
+    R.extra['cross_type_pairs'] = len(xl)
     if diffs and not R.violations:
         R.violation({'kind': 'correspondence broken: the comparison model and the implementation disagree, but every implementation output satisfied the oracle',
                      'first': R.extra.get('correspondence_diffs', [])[:3]}, no_input=True)
-    R.cov['evaluations'] = len(cases)
+    R.cov['evaluations'] = len(cases) + len(xl)
     R.cov['distinct_nontrivial'] = len(classes)
     R.cov['rule'] = ('pairs of valid values of Uri/UriRef/Iri/IriRef (second derived from the first: ~40 % equal by construction through re-encoded octets, hex case, "." and "x/.." '
                      'detours; the rest differing in exactly one component) and all ordered pairs over a vocabulary for each component type (segment, host, user info, query, fragment, '
